@@ -103,8 +103,9 @@ def run(ctx: Ctx) -> None:
             t = n.ast
             if isinstance(t, ast.Compare) and "CameraImageResponse" in norm(t) and isinstance(t.ops[0], (ast.Is, ast.Eq)):
                 return ("is_camera", True)
-            if isinstance(t, ast.NamedExpr) and "SUBSCRIBE_STATES_RESPONSE_TYPES" in norm(t):
-                return ("in_table", True)
+            tl = table_lookup_atom(osm, n)
+            if tl is not None:
+                return ("in_table", tl)
             return None
 
         td = truth_table(g, ["in_table", "is_camera", "done"], cl, dels)
@@ -124,7 +125,7 @@ def run(ctx: Ctx) -> None:
     okt = False
     if len(tcalls) == 1:
         cls_var = norm(tcalls[0].args[0].func.value)
-        src = [n for n in own_nodes(osm.node) if isinstance(n, ast.NamedExpr) and n.target.id == cls_var]
+        src = [n for n in own_nodes(osm.node) if (isinstance(n, ast.NamedExpr) and n.target.id == cls_var) or (isinstance(n, ast.Assign) and any(isinstance(t, ast.Name) and t.id == cls_var for t in n.targets))]
         okt = len(src) == 1 and norm(inline(osm, src[0].value)) in (f"SUBSCRIBE_STATES_RESPONSE_TYPES.get(type({msgp}))",) and [norm(a) for a in tcalls[0].args[0].args] == [msgp]
     ctx.ob("C17.R2", osm, "state message converted with the model its own type maps to", okt, "")
 
@@ -294,8 +295,9 @@ def callback_counts(ctx: Ctx, w: Func, bound: list[str]) -> None:
             t = norm(n.ast)
             if t.endswith(".done") or t.endswith(".done()"):
                 s = s | {f"done={'T' if label == 'true' else 'F'}"}
-            if ":=" in t and ".get(" in t:
-                s = s | {f"table={'T' if label == 'true' else 'F'}"}
+            tl = table_lookup_atom(w, n) if w.name == "on_state_msg" else None
+            if tl is not None:
+                s = s | {f"table={'T' if (label == 'true') == tl else 'F'}"}
             if "CameraImageResponse" in t:
                 s = s | {f"camera={'T' if label == 'true' else 'F'}"}
         return s
@@ -313,3 +315,24 @@ def callback_counts(ctx: Ctx, w: Func, bound: list[str]) -> None:
         if cnt != want:
             bad.append((sorted(s), cnt, want))
     ctx.ob("C17.R2", w, f"{w.name}: exactly one user callback per handled message", not bad, f"{bad[:2]}")
+
+
+def table_lookup_atom(fn: Func, n: Node, table: str = "SUBSCRIBE_STATES_RESPONSE_TYPES"):
+    """Polarity of a condition that tests the result of `<table>.get(...)` - as a walrus, as a local bound
+    first, or as an explicit `is (not) None` comparison.  Returns True/False (found / not found branch = true) or None."""
+    from ..astutil import bound_name
+
+    gets = [c for c in own_nodes(fn.node) if isinstance(c, ast.Call) and isinstance(c.func, ast.Attribute) and c.func.attr == "get" and table in norm(c.func.value)]
+    if not gets:
+        return None
+    var = bound_name(fn.node, gets[0])
+    t = n.ast
+    if isinstance(t, ast.NamedExpr) and t.value is gets[0]:
+        return True
+    if isinstance(t, ast.Call) and t is gets[0]:
+        return True
+    if var and isinstance(t, ast.Name) and t.id == var:
+        return True
+    if var and isinstance(t, ast.Compare) and len(t.ops) == 1 and isinstance(t.left, ast.Name) and t.left.id == var and isinstance(t.comparators[0], ast.Constant) and t.comparators[0].value is None:
+        return isinstance(t.ops[0], (ast.IsNot, ast.NotEq))
+    return None
